@@ -8,8 +8,6 @@ import (
 	"strconv"
 	"strings"
 
-	"github.com/pkg/errors"
-
 	"github.com/xelaj/mtproto/internal/mtproto/objects"
 )
 
@@ -85,7 +83,11 @@ func TryExpandError(errStr string) (nativeErrorName string, additionalData any) 
 	case reflect.Int:
 		var err error
 		additionalData, err = strconv.Atoi(trimmedData)
-		check(errors.Wrap(err, "error of parsing expected int value"))
+		if err != nil {
+			// the parameter is absent, not a number or out of range: that is not one of the known
+			// parametrised errors, so report the text as the server sent it
+			return errStr, nil
+		}
 
 	case reflect.String:
 		additionalData = trimmedData
